@@ -2,7 +2,10 @@
 Proof: lean/Props/C05.lean (encImpl = reference encoder, decoder round trip with fuel adequacy, content
 length, separator split, type tables).  Tie: hex of real .dods bodies vs `encImpl`, client decoding of
 reference-encoded bytes vs `decImpl`, Content-Length vs `calcSize`, split vs `splitBody`.  Oracle: an
-independent Python reference encoder and the source values."""
+independent Python reference encoder and the source values.  Third round: the reference bytes also go through
+every streaming reader of the client (StreamReader under several chunkings, open_dods_url, SequenceProxy.__iter__),
+compared with the model's `decStream` / `openDodsUrl` / `seqProxy` and with the source values; the real decoder's
+logged read sizes are compared with the model's read trace."""
 import json
 
 import numpy as np
@@ -512,7 +515,11 @@ def run(ctx):
                 "zero extents, structures/grids to depth 3, numpy- and IterData-backed sequences with 0..4 records "
                 "and nested inner sequences), a focused family (every type x 9 shapes, every type as a flat-sequence "
                 "column on both backends and as an inner-sequence column), projections with hyperslabs, and a "
-                "truncated-stream family; a dataset is non-trivial when it has an array, a container or a sequence; "
+                "truncated-stream family and a corrupted-byte family; every reference-encoded response is decoded "
+                "through BytesReader, StreamReader x 5 chunkings, open_dods_url x {app x 3 chunkings, requests, gzip} and, "
+                "per top-level sequence, SequenceProxy.__iter__ x 10 deliveries; a family whose LAST variable is each of "
+                "16 kinds (strings of length 0/4/8/5, Byte[4/8/5], zero extent, scalar, sequence, ...) so that the decoder's "
+                "final read is zero-length; a dataset is non-trivial when it has an array, a container or a sequence; "
                 "distinct by (declaration, data)")
     ctx.assumptions = ["numpy astype/tobytes/frombuffer behave as modelled (two's complement wrap, IEEE bits kept)",
                        "the DDS text is opaque to the theorems (C07); the separator hypothesis of C05_dds_embedded "
